@@ -228,6 +228,20 @@ def _check_flags(case):
                     'word': word, 'got': sorted(int(m) for m in got), 'expected': sorted(int(m) for m in expected)}))
         except Exception as e:  # pylint: disable=broad-except
             findings.append(Finding('flags-parse/' + locus, {'word': word, 'error': repr(e)}))
+        # history: the same word read at another position of the same flag space (MySQL splits its capabilities over
+        # two fields) right after this one - what a word means depends on where it sits, not on what was read before
+        for other_size, other_shift in case.get('then', ()):
+            other_word = word & ((1 << (8 * other_size)) - 1)
+            other_expected = {m for m in flags_class if int(m) & (other_word << other_shift)}
+            try:
+                parser = P.ParserBinary(other_word.to_bytes(other_size, _endian(order)), byte_order=byte_order)
+                parser.parse_numeric_flags('f', other_size, flags_class, shift_left=other_shift)
+                if parser['f'] != other_expected:
+                    findings.append(Finding('flags-parse-history/' + locus, {
+                        'word': word, 'then_size': other_size, 'then_shift': other_shift,
+                        'got': sorted(int(m) for m in parser['f']), 'expected': sorted(int(m) for m in other_expected)}))
+            except Exception as e:  # pylint: disable=broad-except
+                findings.append(Finding('flags-parse-history/' + locus, {'word': word, 'error': repr(e)}))
     else:
         members = [flags_class[n] for n in case['members']]
         word = 0
@@ -609,6 +623,8 @@ def _shard_flags(arg):
     # at a time and is not claimed to handle overlapping members
     if any(bin(int(m)).count('1') > 1 for m in flags_class):
         return stats
+    others = [[other_size, other_shift] for other_ref, other_size, other_shift, _ in FLAG_ENUMS
+              if other_ref == ref and (other_size, other_shift) != (size, shift)]
     if size <= 2:
         words = range(1 << (8 * size))
     else:
@@ -616,6 +632,8 @@ def _shard_flags(arg):
                 [1 << k for k in range(32)]
     for word in words:
         case = {'kind': 'flags-parse', 'enum': ref, 'size': size, 'shift': shift, 'order': order, 'word': word}
+        if others:
+            case['then'] = others
         stats.evaluated()
         stats.label('flags-parse')
         if word:
